@@ -1,6 +1,7 @@
 package core
 
 import (
+	"strings"
 	"go/constant"
 	"go/token"
 	"go/types"
@@ -41,7 +42,15 @@ func GlobalInits(pkg *ssa.Package) map[string]*InitVal {
 	if init == nil {
 		return out
 	}
-	Instrs(init, func(in ssa.Instruction) {
+	// the variable initialisers, then the bodies of the package's own init functions (in source order):
+	// a variable declared without a value and assigned once in an init function is initialised there
+	fns := []*ssa.Function{init}
+	for _, c := range Calls(init) {
+		if g := StaticCallee(c); g != nil && g.Pkg == pkg && strings.HasPrefix(g.Name(), "init#") {
+			fns = append(fns, g)
+		}
+	}
+	scan := func(in ssa.Instruction) {
 		st, ok := in.(*ssa.Store)
 		if !ok {
 			return
@@ -81,7 +90,10 @@ func GlobalInits(pkg *ssa.Package) map[string]*InitVal {
 		iv.Store = st
 		iv.Value = st.Val
 		classifyInit(iv, st.Val)
-	})
+	}
+	for _, f := range fns {
+		Instrs(f, scan)
+	}
 	return out
 }
 
